@@ -34,11 +34,11 @@ var c09ResetPools = []resetPool{
 	{"pkg/stream/xprotocol", "activeClientPingPong", "shouldCloseConn"},
 }
 
-func c09ResetCloses(c *Ctx) {
+func c09ResetCloses(c *Ctx, rule string) {
 	for _, p := range c09ResetPools {
 		on := c.M(p.pkg, p.client, "OnResetStream")
 		if on == nil || len(on.Params) < 2 {
-			c.Unresolved("C09.R8", p.client+".OnResetStream")
+			c.Unresolved(rule, p.client+".OnResetStream")
 			continue
 		}
 		reason := ssa.Value(on.Params[1])
@@ -82,7 +82,7 @@ func c09ResetCloses(c *Ctx) {
 			}
 		})
 		if nStores == 0 {
-			c.Fail("C09.R8", funcKey(on)+":closing-set", on.Pos(), p.client+".OnResetStream never raises "+p.flag+": no reset request's connection is closed")
+			c.Fail(rule, funcKey(on)+":closing-set", on.Pos(), p.client+".OnResetStream never raises "+p.flag+": no reset request's connection is closed")
 			continue
 		}
 		var names []string
@@ -127,16 +127,16 @@ func c09ResetCloses(c *Ctx) {
 				n++
 				key := ord.next(f, "reset-closes")
 				ok2, why := c09ReasonOK(args[len(args)-1], in, all, set, writersOK, 0)
-				c.Check("C09.R8", key, in.Pos(), ok2, why+" (closing set of "+p.client+": "+desc+")", fmt.Sprintf("a client stream is reset in %s with a reason for which %s.OnResetStream does not mark the connection to be closed (%s; closing set: %s) although the connection is not known to be closed there: the connection goes back to the idle list in the middle of an exchange and the next request leases it", f.Name(), p.client, why, desc))
+				c.Check(rule, key, in.Pos(), ok2, why+" (closing set of "+p.client+": "+desc+")", fmt.Sprintf("a client stream is reset in %s with a reason for which %s.OnResetStream does not mark the connection to be closed (%s; closing set: %s) although the connection is not known to be closed there: the connection goes back to the idle list in the middle of an exchange and the next request leases it", f.Name(), p.client, why, desc))
 			})
 		}
 		if n < 2 {
-			c.Unresolved("C09.R8", "ResetStream sites in "+p.pkg)
+			c.Unresolved(rule, "ResetStream sites in "+p.pkg)
 		}
 	}
 	// the stream client calls StreamConnection.Reset only from a connection event that CheckReasonError classified as a close
 	if on := c.M("pkg/stream", "client", "OnEvent"); on == nil {
-		c.Unresolved("C09.R8", "pkg/stream.client.OnEvent")
+		c.Unresolved(rule, "pkg/stream.client.OnEvent")
 	} else {
 		n := 0
 		for _, cs := range callsIn(on, false, func(cc *ssa.CallCommon) bool { return cc.IsInvoke() && cc.Method.Name() == "Reset" }) {
@@ -154,10 +154,10 @@ func c09ResetCloses(c *Ctx) {
 					}
 				}
 			}
-			c.Check("C09.R8", fmt.Sprintf("%s:connection-reset-on-close-event#%d", funcKey(on), n), cs.Instr.Pos(), ok, "Reset(reason) with the reason CheckReasonError gave for a close event", "the stream client resets all streams of a connection with a connection-closed reason outside the close-event branch: the pools treat those reasons as 'connection already gone' and re-pool a live connection")
+			c.Check(rule, fmt.Sprintf("%s:connection-reset-on-close-event#%d", funcKey(on), n), cs.Instr.Pos(), ok, "Reset(reason) with the reason CheckReasonError gave for a close event", "the stream client resets all streams of a connection with a connection-closed reason outside the close-event branch: the pools treat those reasons as 'connection already gone' and re-pool a live connection")
 		}
 		if n < 1 {
-			c.Unresolved("C09.R8", "StreamConnection.Reset call in client.OnEvent")
+			c.Unresolved(rule, "StreamConnection.Reset call in client.OnEvent")
 		}
 	}
 }
